@@ -92,6 +92,13 @@ func stripConv(v ssa.Value) ssa.Value {
 // arrayBehind: v is a slice of a local array (`a[:]`, `a[lo:]`): returns the Alloc, its length and the low offset.
 func arrayBehind(v ssa.Value) (*ssa.Alloc, int64, int64, bool) {
 	off := int64(0)
+	// the array itself (element addresses of a slice literal are taken on the array, before it is sliced)
+	if al, ok := v.(*ssa.Alloc); ok {
+		if at, ok := deref(al.Type()).Underlying().(*types.Array); ok {
+			return al, at.Len(), 0, true
+		}
+		return nil, 0, 0, false
+	}
 	for i := 0; i < 4; i++ {
 		sl, ok := v.(*ssa.Slice)
 		if !ok {
